@@ -412,6 +412,24 @@ def run(R):
                 got['else'] = val
         R.eq(got.get(byname['Cancelled']), 'CANCEL', 'C04.R7', 'to_h2:Cancelled', site(th), 'reason for Code::Cancelled')
         R.eq(got.get('else'), 'INTERNAL_ERROR', 'C04.R7', 'to_h2:else', site(th), 'reason for every other code')
+    if R.tier == 'thorough':
+        run_matrix(R)
+        R.selftest()
+
+
+def run_matrix(R):
+    """thorough: the HTTP/2 reason table exists exactly in builds with the `server` feature, never a second copy"""
+    with R.guard('C04.R7', 'matrix'):
+        for name, cfg, cr in R.matrix():
+            if not name.startswith('m_role_'):
+                continue
+            R.cur_cfg = name
+            tabs = cr.find('status::Status::code_from_h2')
+            want = 1 if 'server' in cr.features else 0
+            R.check(len(tabs) == want, 'C04.R7', 'h2-table-presence@' + name, 'tonic/src/status.rs', 'code_from_h2 bodies: %d (features %s; required %d)' % (len(tabs), sorted(cr.features), want))
+            b = cr.body('status::infer_grpc_status')
+            R.check(len(b.calls(pat='Status::from_header_map')) == 1, 'C04.R6', 'trailers-first@' + name, site(b), 'infer_grpc_status consults the trailers in config %s' % name)
+        R.cur_cfg = 'full'
 
 
 def classify_subject(b, bb):
